@@ -7,7 +7,7 @@ ISO="${ISO:-/tmp/iso}"
 mkdir -p $ISO
 if [ ! -d $ISO/repo ]; then git -C /repo worktree add -q --detach $ISO/repo HEAD && cp /repo/Cargo.lock $ISO/repo/; fi
 ( cd $ISO/repo && git checkout -q --detach "$(git -C /repo rev-parse HEAD)" && git checkout -- . && git apply "$P" ) || { echo "patch does not apply"; exit 2; }
-rsync -a --delete --exclude out --exclude harness/target --exclude .git /verif/ $ISO/verif/
+rsync -a --delete --exclude out --exclude harness/target --exclude .git ${SRC:-/verif}/ $ISO/verif/
 sed -i "s#path = \"/repo\"#path = \"$ISO/repo\"#" $ISO/verif/harness/Cargo.toml
 for prop in "$@"; do
   ( cd $ISO/verif && timeout 1800 bin/check "$prop" quick 2>&1 | grep -E 'VIOLATION|KNOWN|TOOL|clause=|runs validated|cases \(' ; echo "rc($prop)=${PIPESTATUS[0]}" )
